@@ -233,7 +233,7 @@ RESOLUTIONS = ["480p (640 x 480)", "720p (1280 x 720)", "1080p (1920 x 1080)", "
 TECHS = ["go-pgx", "jvm-kotlin-spring", "node-express-sequelize", "php-symfony", "rust-actix-sqlx"]
 MODELS = [("openai", "gpt-3.5-turbo-1106"), ("mistralai", "open-mistral-7b"), ("mistralai", "open-mixtral-8x7b"), ("mistralai", "mistral-medium"),
           ("google", "gemini-1.5-pro"), ("huggingface_hub", "databricks/dbrx-base"), ("cohere", "command")]
-INSTANCES = [("scaleway", "ent1-s"), ("aws", "c4.large"), ("scaleway", "ent1-l"), ("azure", "d16ads_v5"), ("gcp", "c4a-standard-16"), ("gcp", "g1-small")]
+INSTANCES = [("scaleway", "ent1-s"), ("aws", "c4.large"), ("scaleway", "ent1-l"), ("azure", "d16ads_v5"), ("gcp", "c4a-standard-16"), ("aws", "c4.xlarge")]
 
 
 def run(tier, seed, procs=16):
